@@ -464,8 +464,8 @@ def splice_fn(src, item, ann):
                 raise ExtractError('lost anchor: %s::%s: cannot find the end of closure %r' % (src.rel, item.name, needle))
             expr2 = body[j:end].strip()
             repls.append((pos, end, '|%s| -> (%s)\n%s\n{ %s }' % (params, ret, ctext.rstrip(), expr2)))
-        if nth == 0:
-            if not found:
+        if nth <= 0:
+            if not found and nth == 0:
                 raise ExtractError('lost anchor: %s::%s: closure %r not found' % (src.rel, item.name, needle))
             for pos in found: one(pos)
         else:
